@@ -216,6 +216,12 @@ def run(ctx: Ctx) -> None:
         by_d.setdefault(d, []).append((sql, ("dialect_tests",)))
     for d, sqls in sorted(by_d.items()):
         plan.append((d, sqls, "dev1"))
+    # every subset of the optional clauses of every statement kind (G_clauses), under every single option deviation
+    from vlib.grammar_clauses import clause_statements
+
+    cl = [(sql, tags) for sql, tags in clause_statements()]
+    for d in (dialects if not quick else ["", "duckdb", "postgres", "mysql", "tsql", "bigquery", "snowflake", "spark"]):
+        plan.append((d, cl, "dev1"))
     plan.append(("", pretty, "dev2"))
     plan.append(("", ident if not quick else ident[::3], "dev1"))
     res = ctx.run_shards(worker, ctx.jobs * 4, plan)
@@ -245,7 +251,8 @@ def run(ctx: Ctx) -> None:
             "evaluations": res["evaluations"],
             "distinct_nontrivial": len(res["changed"]),
             "rule": "trees = parses of G_core (comment-carrying grammar) k<=1 per dialect" + ("" if quick else " and ALL of k<=2 in the base dialect (1-option deviations)") + " + hand-written comment/newline statements + "
-                    "pretty.sql + identity.sql + every statement of tests/dialects/*.py in its own dialect (1-option deviations); options = full 6480-combination product for the simplest trees (base dialect), every 1- "
+                    "pretty.sql + identity.sql + every statement of tests/dialects/*.py in its own dialect (1-option deviations) + G_clauses (every subset of the "
+                    "optional clauses of each statement kind; 1-option deviations) in " + ("8 dialects" if quick else "all dialects") + "; options = full 6480-combination product for the simplest trees (base dialect), every 1- "
                     "and 2-option deviation from the defaults otherwise; non-trivial = (tree, dialect, options) whose text differs from "
                     "the default text.",
             "trees": res["trees"],
